@@ -2,6 +2,7 @@
 from __future__ import annotations
 
 import ast
+import re
 from typing import Any, Dict, List, Optional, Set, Tuple
 
 from .. import linexpr as lx
@@ -271,9 +272,24 @@ def rule_route(rep: Report, cu: CUnit) -> None:
     if not mm_ or mm_.group(1) not in cu.funcs:
         raise AnalysisError('C07.ROUTE: the set_word entry of the method table was not found')
     setter = mm_.group(1)
-    masks = [lx.show(c_ir(n['inner'][1], cu.src_of)) for n in walk(cu.body(setter)) if is_assign(n)
+    def rd_(fname_: str, node_: Dict[str, Any]) -> str:
+        ir_ = c_ir(node_, cu.src_of)
+        ld_ = local_defs(cu, fname_)
+        for _ in range(3):
+            if ir_[0] == 'sym' and len(ld_.get(ir_[1], [])) == 1 and ld_[ir_[1]][0] is not None:
+                ir_ = c_ir(ld_[ir_[1]][0], cu.src_of)
+        return lx.show(ir_)
+    masks = [rd_(setter, n['inner'][1]) for n in walk(cu.body(setter)) if is_assign(n)
              and (strip(n['inner'][0]).get('kind') == 'ArraySubscriptExpr' or
                   (strip(n['inner'][0]).get('kind') == 'UnaryOperator' and strip(n['inner'][0]).get('opcode') == '*'))]
+    # ... and so does the bulk loader set_words
+    mw_ = _re.search(r'"set_words"\s*,\s*\(PyCFunction\)\s*(\w+)', mt)
+    if mw_ and mw_.group(1) in cu.funcs:
+        masks_w = [rd_(mw_.group(1), n['inner'][1]) for n in walk(cu.body(mw_.group(1))) if is_assign(n)
+                   and (strip(n['inner'][0]).get('kind') == 'ArraySubscriptExpr' or
+                        (strip(n['inner'][0]).get('kind') == 'UnaryOperator' and strip(n['inner'][0]).get('opcode') == '*'))]
+        rep.check(len(masks_w) >= 1 and all(m in ('(value&self.word_mask)', '(self.word_mask&value)') for m in masks_w), 'C07.ROUTE', 'Memory_set_words:mask',
+                  f'stores {masks_w}', cu.site(cu.func(mw_.group(1)), mw_.group(1)), expected='every stored value is masked to w bits')
     rep.check(len(masks) >= 1 and all(m in ('(value&self.word_mask)', '(self.word_mask&value)') for m in masks), 'C07.ROUTE', 'Memory_set_word:mask',
               f'stores {masks}', cu.site(cu.func(setter)), expected='value & word_mask at every store')
     # inline lanes: every comparison against flat_count guards a cold label whose block calls a routing helper
@@ -696,6 +712,122 @@ def rule_copyin(rep: Report, cu: CUnit) -> None:
         rep.check(got == bounds, 'C07.COPYIN', f'{kind}:loop range', f'{got}', cu.site(t, fname), expected=f'{bounds}')
 
 
+# ---------------------------------------------------------------- C07.MEMBERSHIP
+
+def rule_membership(rep: Report, cu: CUnit) -> None:
+    rep.rule('C07.MEMBERSHIP', 'which words belong to a segment is the half-open range [start, end) in every place that decides it, folded on '
+             'the four boundary words start-1, start, end-1, end: the fast path of access_check (the page\'s valid range), the linear '
+             'scan of the flat window (flat_seg_contains), and the binary search word_is_valid (go left iff the word is below the '
+             'segment, go right iff it is at or above its end, found otherwise) with a well-formed halving step', 3)
+    S, E = 40, 50
+    pts = [S - 1, S, S + 1, E - 1, E, E + 1]
+
+    def fold(ir: Any, env: Dict[str, int]) -> Optional[bool]:
+        try:
+            return bool(lx.eval_ir(ir, env))
+        except lx.Unrecognised:
+            return None
+    # access_check: the condition under which it answers "valid" without consulting the segment table
+    ac = cu.body('access_check')
+    first_if = next((n for n in ac.get('inner', []) if isinstance(n, dict) and n.get('kind') == 'IfStmt'), None)
+    bad = []
+    if first_if is None:
+        bad.append('no fast-path test')
+    else:
+        ir = lx.ir_subst(c_ir(first_if['inner'][0], cu.src_of), alias_binding(cu, 'access_check'))
+        # when the test is merged with the slow path (`fast || word_is_valid(..) || !garbage_stop`): read it with the segment table
+        # answering "no" in stop mode - what remains is what the fast path alone accepts
+        def no_table(e: Any) -> Any:
+            if isinstance(e, tuple):
+                if e and e[0] == 'call' and e[1][0] == 'sym' and e[1][1] == 'word_is_valid':
+                    return ('num', 0)
+                return tuple(no_table(x) for x in e)
+            if isinstance(e, list):
+                return [no_table(x) for x in e]
+            return e
+        ir = no_table(ir)
+        for w_ in pts:
+            got = fold(ir, {'off': w_, 'page.valid_start': S, 'page.valid_end': E, 'word_address': w_, 'PAGE_MASK': (1 << 30) - 1, 'm.garbage_stop': 1})
+            # the fast path may answer for fewer words (the segment table is consulted for the rest), never for more
+            if got is None or (got and not (S <= w_ < E)):
+                bad.append(f'offset {w_} with valid range [{S}, {E}): fast path says {got}')
+        rets = [r for r in walk(first_if['inner'][1]) if r.get('kind') == 'ReturnStmt']
+        if not (rets and (int_value(strip(rets[0]['inner'][0])) or 0) != 0):
+            bad.append('the fast path does not answer "valid"')
+    rep.check(not bad, 'C07.MEMBERSHIP', 'access_check:fast-path', bad[0] if bad else 'answers "valid" only for valid_start <= offset < valid_end',
+              cu.site(cu.func('access_check'), 'access_check'))
+    # flat_seg_contains / word_is_valid: conditions over (word_address, segment start, segment end)
+    def seg_env(w_: int, idx: str) -> Dict[str, int]:
+        return {'word_address': w_, f'm.segments[{idx}].start': S, f'm.segments[{idx}].end': E}
+    fs = cu.body('flat_seg_contains')
+    conds = [n for n in walk(fs) if n.get('kind') == 'IfStmt']
+    bad = []
+    if len(conds) != 1:
+        bad.append(f'{len(conds)} tests')
+    else:
+        ir = c_ir(conds[0]['inner'][0], cu.src_of)
+        idx = next((lx.show(x[2]) for x in [ir] if False), None)
+        syms = sorted(lx.syms(ir))
+        seg_idx = next((re.search(r'segments\[(\w+)\]', s_).group(1) for s_ in syms if 'segments[' in s_), 'seg')
+        for w_ in pts:
+            got = fold(ir, seg_env(w_, seg_idx))
+            if got is None or got != (S <= w_ < E):
+                bad.append(f'word {w_} with segment [{S}, {E}): contained={got}')
+    rep.check(not bad, 'C07.MEMBERSHIP', 'flat_seg_contains', bad[0] if bad else 'start <= word < end', cu.site(cu.func('flat_seg_contains'), 'flat_seg_contains'))
+    wv = cu.body('word_is_valid')
+    loop = next((n for n in walk(wv) if n.get('kind') == 'WhileStmt'), None)
+    bad = []
+    if loop is None:
+        bad.append('no search loop')
+    else:
+        lc = c_ir(loop['inner'][0], cu.src_of)
+        if not (lc[0] == 'cmp' and list(lc[1]) == ['<='] and lc[2][0][0] == 'sym' and lc[2][1][0] == 'sym'):
+            bad.append(f'loop condition {lx.show(lc)} is not lo <= hi')
+        else:
+            lo, hi = lc[2][0][1], lc[2][1][1]
+            # the chain of tests inside the loop: each branch by what it does
+            chain = []
+            node = next((n for n in walk(loop['inner'][1]) if n.get('kind') == 'IfStmt'), None)
+            while node is not None:
+                chain.append((c_ir(node['inner'][0], cu.src_of), node['inner'][1]))
+                nxt = node['inner'][2] if len(node['inner']) > 2 else None
+                if isinstance(nxt, dict) and nxt.get('kind') == 'IfStmt':
+                    node = nxt
+                else:
+                    chain.append((None, nxt))
+                    node = None
+            def action(b: Any) -> str:
+                if not isinstance(b, dict):
+                    return 'none'
+                for x in walk(b):
+                    if is_assign(x) and cu.src_of(x['inner'][0]) == hi:
+                        return 'left:' + lx.show(c_ir(x['inner'][1], cu.src_of))
+                    if is_assign(x) and cu.src_of(x['inner'][0]) == lo:
+                        return 'right:' + lx.show(c_ir(x['inner'][1], cu.src_of))
+                    if x.get('kind') == 'ReturnStmt' and x.get('inner') and (int_value(strip(x['inner'][0])) or 0) != 0:
+                        return 'found'
+                return 'none'
+            mid_defs = [d for d in local_defs(cu, 'word_is_valid').get('mid', []) if d is not None]
+            mid_ok = len(mid_defs) == 1 and lx.show(c_ir(mid_defs[0], cu.src_of)).replace(' ', '') in (f'(({lo}+{hi})/2)', f'({lo}+(({hi}-{lo})/2))', f'(({hi}+{lo})/2)')
+            if not mid_ok:
+                bad.append(f'mid = {[cu.src_of(d) for d in mid_defs]}')
+            for w_ in pts:
+                taken = None
+                for cond, body_ in chain:
+                    ok_ = True if cond is None else fold(cond, seg_env(w_, 'mid'))
+                    if ok_ is None:
+                        taken = 'unreadable'
+                        break
+                    if ok_:
+                        taken = action(body_)
+                        break
+                want = 'left:(mid-1)' if w_ < S else 'right:(mid+1)' if w_ >= E else 'found'
+                if (taken or '').replace(' ', '') != want:
+                    bad.append(f'word {w_} against segment [{S}, {E}): {taken}, expected {want}')
+    rep.check(not bad, 'C07.MEMBERSHIP', 'word_is_valid', bad[0] if bad else 'left iff below start, right iff at / above end, found otherwise; mid = (lo + hi) / 2',
+              cu.site(cu.func('word_is_valid'), 'word_is_valid'))
+
+
 # ---------------------------------------------------------------- C07.MODE
 
 def rule_mode(rep: Report, cu: CUnit, repo: Repo) -> None:
@@ -905,6 +1037,7 @@ def check(rep: Report, repo: Optional[Repo] = None) -> None:
     rule_copyin(rep, cu)
     rule_mode(rep, cu, repo)
     rule_record(rep, cu, repo)
+    rule_membership(rep, cu)
     # shared with C01: the wrap finding concerns layouts near the top of the address space
     from .c01 import c_clones, rule_addr_wrap, rule_per_op_state
     rule_addr_wrap(rep, cu)
